@@ -49,6 +49,16 @@ def check(case):
     types = sorted({f[1] for t in case['tables'] for f in t['fields']})
     shape = '%s/%s' % (fmt, '+'.join(types) if len(types) <= 2 else 'many')
     viol = []
+    if cfg.get('numdialect'):
+        # as after set_type(type='number', decimalChar=',', groupChar='.'): the incoming descriptor carries a dialect
+        for r in st.desc['resources']:
+            for f in r['schema']['fields']:
+                if f['type'] == 'number':
+                    f['decimalChar'] = ','
+                    f['groupChar'] = '.'
+    if cfg.get('chain_other_format'):
+        # another file dumper of the OTHER format further down the same flow must not disturb this one
+        dumps.chain_after[0] = 'json' if fmt == 'csv' else 'csv'
     with core.scratch_dir() as d:
         try:
             dumps.options_after_mutation[0] = bool(cfg.get('mutate_after'))
@@ -56,6 +66,7 @@ def check(case):
                 emitted, desc, stats, root, out = dumps.run_dump(st, d, how, **opts)
             finally:
                 dumps.options_after_mutation[0] = False
+                dumps.chain_after[0] = None
         except core.CaseTimeout:
             raise
         except Exception as e:
@@ -174,6 +185,8 @@ def cases(tier):
         out.append({'tables': [temporal_tbl], 'cfg': cfg})
         out.append({'tables': [temporal_tbl], 'cfg': dict(cfg, revkeys=True)})
         out.append({'tables': [many_sorted], 'cfg': dict(cfg, mutate_after=True)})
+        out.append({'tables': [many_sorted], 'cfg': dict(cfg, numdialect=True)})
+        out.append({'tables': [many_sorted, {'fields': [['z', 'string']], 'rows': [[E('x')]]}], 'cfg': dict(cfg, chain_other_format=True)})
         out.append({'tables': [many_sorted], 'cfg': dict(cfg, revkeys=True)})
     for cfg in full:
         for pk in (False, True):
